@@ -62,6 +62,7 @@ type Cfg struct {
 	Unauthed     string   `json:"unauthed"` // notfound | redirect | unauthorized
 	Providers    []string `json:"providers"`
 	Preserve     []string `json:"preserve"`
+	WrapRemember bool     `json:"wrap_remember"` // remember.Middleware around the module routes too (global middleware chain)
 	DefaultPaths bool     `json:"default_paths"` // Config.Paths' OK / NotOK targets left at authboss.New()'s defaults ("/")
 	OneTime      bool     `json:"onetime"`       // the user type implements totp2fa.UserOneTime (TOTP replay protection)
 }
@@ -448,10 +449,14 @@ func newWorld(cfg Cfg, seed int64) (*World, error) {
 	w.confM = &confirm.Confirm{Authboss: ab}
 
 	mux := http.NewServeMux()
+	var router http.Handler = ab.Config.Core.Router
+	if cfg.WrapRemember && cfg.has("remember") {
+		router = remember.Middleware(ab)(router)
+	}
 	if cfg.Mount == "" {
-		mux.Handle("/", ab.Config.Core.Router)
+		mux.Handle("/", router)
 	} else {
-		mux.Handle(cfg.Mount+"/", http.StripPrefix(cfg.Mount, ab.Config.Core.Router))
+		mux.Handle(cfg.Mount+"/", http.StripPrefix(cfg.Mount, router))
 	}
 	mux.Handle("/app/", http.HandlerFunc(w.appStack))
 	w.h = http.HandlerFunc(func(rw http.ResponseWriter, r *http.Request) {
